@@ -46,7 +46,7 @@ SUB5 = [LEAVES[i] for i in (0, 1, 3, 4, 9)]
 SUB3 = [LEAVES[i] for i in (1, 3, 9)]
 
 SCALARS = [[2.0, -1.0], -0.5, {"np": "float32", "v": 3.0}, {"np": "complex64", "v": [0.5, 1.0]},
-           1.000004, [1.0, 4e-6], {"np": "float32", "v": 1.000004}, 1]
+           1.000004, [1.0, 4e-6], {"np": "float32", "v": 1.000004}, 1, 0, -1, {"np": "int64", "v": 2}, True]
 
 
 def scalar_val(c):
@@ -96,7 +96,7 @@ def ref_shapes(spec):
     if "kids" not in spec:
         return list(spec["ish"]), list(spec["osh"])
     ks = [ref_shapes(k) for k in spec["kids"]]
-    if op in ("Conj", "Neg", "LScale", "RScale"):
+    if op in ("Conj", "Neg", "LScale", "RScale", "IScale"):
         return ks[0]
     if op == "H":
         return ks[0][1], ks[0][0]
@@ -107,10 +107,15 @@ def ref_shapes(spec):
         if ia != ob:
             raise IllTyped("compose")
         return ib, oa
-    if op in ("Add", "Sub"):
+    if op in ("Add", "Sub", "IAdd", "ISub"):
         if ks[0] != ks[1]:
             raise IllTyped("add")
         return ks[0]
+    if op == "IMul":
+        (ia, oa), (ib, ob) = ks
+        if ia != ob:
+            raise IllTyped("compose")
+        return ib, oa
     if op == "AddN":
         if any(k != ks[0] for k in ks):
             raise IllTyped("add")
@@ -169,8 +174,14 @@ def ref_matrix(spec, leafM):
         return Ms[0].conj().T @ Ms[0]
     if op == "Neg":
         return -Ms[0]
-    if op in ("LScale", "RScale"):
+    if op in ("LScale", "RScale", "IScale"):
         return scalar_val(spec["c"]) * Ms[0]
+    if op == "IAdd":
+        return Ms[0] + Ms[1]
+    if op == "ISub":
+        return Ms[0] - Ms[1]
+    if op == "IMul":
+        return Ms[0] @ Ms[1]
     if op == "Compose":
         return Ms[0] @ Ms[1]
     if op == "Add":
@@ -218,6 +229,7 @@ def unary_variants(t, scalars=SCALARS):
         yield dict(op="LScale", c=c, kids=[t])
     for c in scalars[:2]:
         yield dict(op="RScale", c=c, kids=[t])
+    yield dict(op="IScale", c=scalars[0], kids=[t])      # A *= c
 
 
 def binary_variants(a, b, all_axes=True):
@@ -229,6 +241,10 @@ def binary_variants(a, b, all_axes=True):
     if (ia, oa) == (ib, ob):
         yield dict(op="Add", kids=[a, b])
         yield dict(op="Sub", kids=[a, b])
+        yield dict(op="IAdd", kids=[a, b])               # A += B, A -= B: the augmented forms of the same algebra
+        yield dict(op="ISub", kids=[a, b])
+    if ia == ob:
+        yield dict(op="IMul", kids=[a, b])               # A *= B
     for name, same, stack in (("Hstack", oa == ob, (ia, ib)), ("Vstack", ia == ib, (oa, ob))):
         if not same:
             continue
@@ -285,7 +301,8 @@ def ill_typed_pairs(leaves):
     out = []
     for a in leaves:
         for b in leaves:
-            cands = [dict(op="Compose", kids=[a, b]), dict(op="Add", kids=[a, b]), dict(op="Sub", kids=[a, b])]
+            cands = [dict(op="Compose", kids=[a, b]), dict(op="Add", kids=[a, b]), dict(op="Sub", kids=[a, b]),
+                     dict(op="IAdd", kids=[a, b]), dict(op="ISub", kids=[a, b]), dict(op="IMul", kids=[a, b])]
             nd = max(len(a["ish"]), len(a["osh"]))
             for ax in [None] + list(range(-nd - 1, nd + 1)):
                 cands.append(dict(op="Hstack", axis=ax, kids=[a, b]))
